@@ -56,7 +56,7 @@ package htmldoc
 //@   property C15
 //@   ensures cell_safe: forall k int :: {res[k]} 0 <= k && k < len(res) ==> cellSafeAt(res, k)
 //@   loop 0:
-//@     invariant forall k int :: {result[k]} 0 <= k && k < len(result) ==> cellSafeAt(result, k)
+//@     invariant forall k int :: {result.String()[k]} 0 <= k && k < len(result.String()) ==> cellSafeAt(result.String(), k)
 
 // ---- C19: elements already emitted must not share a backing array with accumulators that keep growing ----
 //@ func (*Reader) traverseNodeFiltered
